@@ -423,16 +423,45 @@ Section Scope.
     Lemma key_of_qkey_of_skey sk : key_of_q (qkey_of_skey sk) = key_of_skey sk.
     Proof. destruct sk; reflexivity. Qed.
 
-    (* the key is current and equals itself: found at once, nothing moves (a key that does not equal itself
-       — a NaN float key — starts a search in which the callback's reference is overwritten: not covered) *)
-    Lemma find_ref_current st p vm pn sk : at_member st p vm pn -> o_key st = Some sk ->
-      skey_eq sk (qkey_of_skey sk) = true ->
-      find_value_by_key_ref narrow widen o (qkey_of_skey sk) st p = Go (true, st) p /\
-      lookup (key_of_q (qkey_of_skey sk)) kvs = Some vm.
+    (* ---------- FindValueByKey with the key the VisitKeys callback was handed (a copy since d346324) ---------- *)
+    Lemma irreflexive_absent q : key_eq (key_of_q q) (key_of_q q) = false -> lookup (key_of_q q) kvs = None.
     Proof.
-      intros HM Hkey Eq. split.
-      - unfold find_value_by_key_ref. rewrite Hkey, Eq. reflexivity.
-      - exact (at_member_match (qkey_of_skey sk) _ _ _ _ sk HM Hkey Eq).
+      intros Hq. apply lookup_nomatch. apply Forall_forall. intros [k v] _. unfold kmatch. cbn [fst].
+      destruct (keyden k) as [k'|]; [|reflexivity]. destruct (key_eq k' (key_of_q q)) eqn:E; [|reflexivity].
+      rewrite (key_eq_trans (key_of_q q) k' (key_of_q q)) in Hq; [discriminate Hq | rewrite key_eq_sym; exact E | exact E].
+    Qed.
+
+    (* the key is current: either it equals itself (found at once, nothing moved), or it does not (a NaN float /
+       double key): the value is skipped, a full cycle finds nothing and comes back behind that member *)
+    Lemma find_current st p vm pn sk : at_member st p vm pn -> o_key st = Some sk ->
+      let q := qkey_of_skey sk in
+      (find_value_by_key q st p = Go (true, st) p /\ lookup (key_of_q q) kvs = Some vm) \/
+      (find_value_by_key q st p = Go (false, on_finish_child st) pn /\
+       find_value_by_key q (on_finish_child st) pn = Go (false, on_finish_child st) pn /\
+       lookup (key_of_q q) kvs = None).
+    Proof.
+      intros HM Hkey q.
+      destruct (skey_eq sk q) eqn:Eq.
+      - left. split; [unfold MpScopeModel.find_value_by_key; rewrite Hkey, Eq; reflexivity|].
+        exact (at_member_match q _ _ _ _ sk HM Hkey Eq).
+      - right.
+        assert (Habs : lookup (key_of_q q) kvs = None).
+        { apply irreflexive_absent. subst q. rewrite key_of_qkey_of_skey.
+          destruct HM as [kvs1 km vm0 kvs2 pk p1 pn0 sk0 E H1 Hk Hv0 H2 Hkd Hok]. cbn [o_key] in Hkey. injection Hkey as <-.
+          rewrite (skey_eq_spec sk0 _ Hok), key_of_qkey_of_skey in Eq. exact Eq. }
+        destruct HM as [kvs1 km vm0 kvs2 pk p1 pn0 sk0 E H1 Hk Hv0 H2 Hkd Hok].
+        cbn [o_key] in Hkey. injection Hkey as <-.
+        unfold MpScopeModel.find_value_by_key at 1. cbn [o_key]. rewrite Eq.
+        unfold reset_key. cbn [o_key]. rewrite (skip_at_exact _ _ _ Hv0).
+        unfold on_finish_child. cbn [o_start o_size o_index].
+        replace (N.of_nat (length kvs1) + 1) with (N.of_nat (length (kvs1 ++ [(km, vm0)]))) by (rewrite app_length; cbn [length]; lia).
+        assert (E' : kvs = (kvs1 ++ [(km, vm0)]) ++ kvs2) by (rewrite <- app_assoc; exact E).
+        assert (H1' : olayout body (kvs1 ++ [(km, vm0)]) pn0) by (eapply olayout_snoc; eassumption).
+        destruct (find_from_at q _ _ _ E' H1' H2) as [b [st' [p' [Ef Hres]]]]. rewrite Habs in Hres. destruct Hres as [-> [-> ->]].
+        assert (Hl : (length (kvs1 ++ [(km, vm0)]) =? 0)%nat = false) by (rewrite app_length; cbn [length]; apply Nat.eqb_neq; lia).
+        rewrite Hl in Ef.
+        split; [exact Ef|]. split; [|exact Habs].
+        unfold MpScopeModel.find_value_by_key. cbn [o_key o_start]. exact Ef.
     Qed.
   End Doc.
 End Scope.
